@@ -52,11 +52,14 @@ func c27Key(b c27Bucket) io.TimeBucketKey {
 }
 
 func c27Gen(r *rng.Rand, i int, tier string) interface{} {
-	maxRows := 8
+	maxRows, pStr16 := 5, 25 // quick: few rows, string16 (64 bytes/value) kept rare so that cases.v stays small
 	if tier == "thorough" {
-		maxRows = 50
+		maxRows, pStr16 = 50, 100
 	}
 	nb := 1 + r.Intn(5)
+	if tier != "thorough" {
+		nb = 1 + r.Intn(4)
+	}
 	clean := r.Chance(45) // no perturbation at all: inside the theorem's guard
 	if !clean && r.Chance(3) {
 		nb = 0
@@ -64,6 +67,9 @@ func c27Gen(r *rng.Rand, i int, tier string) interface{} {
 	// base shape
 	type sh struct{ name, typ string }
 	ncols := 1 + r.Intn(6)
+	if tier != "thorough" {
+		ncols = 1 + r.Intn(5)
+	}
 	var base []sh
 	used := map[string]bool{}
 	for j := 0; j < ncols; j++ {
@@ -76,6 +82,9 @@ func c27Gen(r *rng.Rand, i int, tier string) interface{} {
 		}
 		used[name] = true
 		typ := c27WireTypes[r.Intn(len(c27WireTypes))]
+		for typ == "string16" && !r.Chance(pStr16) {
+			typ = c27WireTypes[r.Intn(len(c27WireTypes))]
+		}
 		if name == "Epoch" {
 			typ = "int64"
 		}
@@ -179,6 +188,7 @@ type c27ObsCol struct {
 }
 type c27ObsCSM struct {
 	Code int                    `json:"code"`
+	Same bool                   `json:"same"` // decoded map identical to the input buckets (then Map is not printed to Coq)
 	Map  map[string][]c27ObsCol `json:"map,omitempty"`
 }
 type c27Obs struct {
@@ -299,6 +309,9 @@ func c27ObsOf(m map[io.TimeBucketKey]*io.ColumnSeries) map[string][]c27ObsCol {
 }
 
 func c27CoqCSM(o c27ObsCSM) string {
+	if o.Same {
+		return cq.Rec(cq.F("d_code", cq.Nat(o.Code)), cq.F("d_same", "true"), cq.F("d_map", "[]"))
+	}
 	var keys []string
 	for k := range o.Map {
 		keys = append(keys, k)
@@ -312,7 +325,25 @@ func c27CoqCSM(o c27ObsCSM) string {
 		}
 		ents = append(ents, cq.Tuple(cq.Hex([]byte(k)), cq.List(cols)))
 	}
-	return cq.Rec(cq.F("d_code", cq.Nat(o.Code)), cq.F("d_map", cq.List(ents)))
+	return cq.Rec(cq.F("d_code", cq.Nat(o.Code)), cq.F("d_same", "false"), cq.F("d_map", cq.List(ents)))
+}
+
+func c27MapEq(a, b map[string][]c27ObsCol) bool {
+	if len(a) != len(b) {
+		return false
+	}
+	for k, ca := range a {
+		cb, ok := b[k]
+		if !ok || len(ca) != len(cb) {
+			return false
+		}
+		for j := range ca {
+			if ca[j].Name != cb[j].Name || ca[j].Type != cb[j].Type || string(ca[j].Data) != string(cb[j].Data) {
+				return false
+			}
+		}
+	}
+	return true
 }
 
 func c27CoqMap(m map[string]int) string {
@@ -469,6 +500,19 @@ func c27Run(raw json.RawMessage) (res Result, err error) {
 			obs.Resp.Map = c27ObsOf(*m)
 		}()
 	}
+	// identical to the input? (only meaningful when the input keys are distinct)
+	if distinct && len(bs) > 0 {
+		wantAll := map[string][]c27ObsCol{}
+		for i, h := range hs {
+			var cols []c27ObsCol
+			for j := range h.names {
+				cols = append(cols, c27ObsCol{h.names[j], int(h.types[j]), h.raws[j]})
+			}
+			wantAll[obs.Keys[i]] = cols
+		}
+		obs.Dec.Same = obs.Dec.Code == 0 && obs.Dec.Map != nil && c27MapEq(obs.Dec.Map, wantAll)
+		obs.Resp.Same = obs.Resp.Code == 0 && obs.Resp.Map != nil && c27MapEq(obs.Resp.Map, wantAll)
+	}
 	res.Obs = obs
 	w := obs.Wire
 	if w == nil {
@@ -624,7 +668,7 @@ func init() {
 		ID:          "C27",
 		CoqRequire:  "Require Import MS.Corr.C27.",
 		CoqCaseType: "C27.case",
-		Rule: "0-5 buckets sharing a base shape of 1-6 columns over the 11 wire types (bool rarely), 0-8 rows per bucket (0-50 thorough, " +
+		Rule: "0-4 buckets (0-5 thorough) sharing a base shape of 1-5 (1-6) columns over the 11 wire types (bool rarely), 1-5 rows per bucket (1-50 thorough, " +
 			"10% forced zero), per bucket 9% one type changed / 4% one name changed / 3% column count changed / 3% ragged columns; " +
 			"keys mostly SYM/1Min/OHLCV with default or explicit category, ~8% non-canonical (colon inside, zero value), 3% duplicate; " +
 			"distinct = distinct input JSON; non-trivial = inside the theorem's guard with >=2 buckets and >=2 columns",
